@@ -650,8 +650,23 @@ func (cl *Cluster) Kill(m *Machine) {
 	m.tr.dead = true
 	cl.dirN++
 	nd := filepath.Join(cl.Base, fmt.Sprintf("m%d.%d", m.Idx, cl.dirN))
-	os.MkdirAll(nd, 0755)
-	out, err := exec.Command("cp", "-a", m.Dir+"/.", nd).CombinedOutput()
+	// the image of the directory at the instant of the kill. With the rocksdb
+	// engine its own background threads (real OS threads outside the bubble)
+	// may be finishing a flush or compaction while the copy runs and delete a
+	// file the copy has listed: such a copy is no instant of the directory at
+	// all, it is taken again (the background work ends by itself).
+	var out []byte
+	var err error
+	for try := 0; try < 8; try++ {
+		os.RemoveAll(nd)
+		os.MkdirAll(nd, 0755)
+		out, err = exec.Command("cp", "-a", m.Dir+"/.", nd).CombinedOutput()
+		if err == nil {
+			break
+		}
+		cl.C.Count("infra.kill_image_copy_retried", 1)
+		exec.Command("sleep", "0.05").Run() // real time for the real threads; the bubble's clock is not touched
+	}
 	if err != nil {
 		panic(fmt.Sprintf("cp: %v %s", err, out))
 	}
